@@ -192,8 +192,9 @@ class StochasticSolver(ABC):
             fest_trace[n_epoch + 1] = f_est
             step_trace[n_epoch + 1] = step
 
-            # Check convergence
-            failed_epoch = f_est > f_est_prev
+            # Check convergence: an estimate that is not comparable (NaN once the
+            # iterates overflowed) is a failed epoch too, never a new best model
+            failed_epoch = bool(not f_est <= f_est_prev)
             self._nfails += failed_epoch
 
             f_est_tol_test = f_est < self._f_est_tol
